@@ -69,6 +69,14 @@ def groups(acc, shard, nshards, tier):
     mod = sys.modules[MOD]
     i = 0
     for case in itertools.chain(c02.table_cases("str-group-pairs", tier), c02.table_cases("factored-pairs", tier), c02.table_cases("shared-child-unions", tier)):
+        if case["b"][0] in ("empty", "any") or case["a"][0] in ("empty", "any"):
+            # one real operand only: its own text
+            e = case["a"] if case["b"][0] in ("empty", "any") else case["b"]
+            if e[0] not in ("empty", "any"):
+                i += 1
+                if i % nshards == shard:
+                    harness.process(mod, acc, "text", {"tree": _expr_tree(e), "context": "metadata"}, "L1-group-pair-texts")
+            continue
         for op in ("and", "or"):
             i += 1
             if i % nshards == shard:
